@@ -17,6 +17,9 @@ From MV Require Import XRef.PathProofs.
 From MV Require Import Gen.C12Links.
 From MV Require Import XRef.XRefModel.
 From MV Require Import XRef.XRefProofs.
+From MV Require Import XRef.XRefSrcBase.
+From MV Require Import Gen.C12Src.
+From MV Require Import XRef.XRefSrcProofs.
 Import ListNotations.
 Open Scope N_scope.
 
@@ -64,12 +67,13 @@ Print Assumptions C12_relative_uri_roundtrip_premise_refuted.
    existing file (download) or to a missing one (reported when rendered). *)
 Theorem C12_path_spellings : forall (P : project) (d : docrec) (tp : list str) (sp : str),
   segs_ok (p_srcdir P) -> segs_ok (d_dir d) -> Forall name_ok tp -> spells (d_dir d) tp sp ->
+  p_all_external P = false ->
   relfn2path (p_srcdir P) (d_dir d) sp = Inside tp
   /\ (forall dn frag ch,
-        is_file P (Inside tp) = true -> path2doc (p_suffixes P) (Inside tp) = Some dn ->
+        is_file P (Inside tp) = true -> path2doc (p_suffixes P) (Inside tp) = Some dn -> dn <> [] ->
         render_link P d (mklink (with_frag sp frag) false ch) = C_doc dn frag)
   /\ (forall dn frag auto ch,
-        mem_str s_project (p_url_schemes P) = false -> path2doc (p_suffixes P) (Inside tp) = Some dn ->
+        mem_str s_project (p_url_schemes P) = false -> path2doc (p_suffixes P) (Inside tp) = Some dn -> dn <> [] ->
         render_link P d (mklink (s_project ++ c_colon :: with_frag sp frag) auto ch) = C_doc dn frag)
   /\ (forall ch,
         is_file P (Inside tp) = true -> path2doc (p_suffixes P) (Inside tp) = None ->
@@ -107,7 +111,7 @@ Theorem C12_path_spellings_docname_anchor : forall P d bn tdn sp frag ch td,
   segs_ok (d_dir d) -> seg_ok bn -> d_name d = join s_slash (d_dir d ++ [bn]) ->
   Forall name_ok tdn -> spells (d_dir d) tdn sp ->
   is_file P (relfn2path (p_srcdir P) (d_dir d) sp) = false ->
-  find_doc (p_docs P) (join s_slash tdn) = Some td ->
+  find_doc (p_docs P) (join s_slash tdn) = Some td -> p_all_external P = false ->
   render_link P d (mklink (with_frag sp (Some frag)) false ch) = C_doc (join s_slash tdn) (Some frag).
 Proof. exact unknown_docname_anchor. Qed.
 Print Assumptions C12_path_spellings_docname_anchor.
@@ -143,7 +147,8 @@ Theorem C12_relative_docs_same_target : forall P d prefix cm r t k frag ch dn,
   (forall x, d_dir d <> (cm ++ t) ++ x) ->
   (match frag with Some f => ~ In c_slash f | None => True end) ->
   startswith (with_frag (rel_spelling k r t) frag) prefix = true ->
-  is_file P (Inside (cm ++ t)) = true -> path2doc (p_suffixes P) (Inside (cm ++ t)) = Some dn ->
+  is_file P (Inside (cm ++ t)) = true -> path2doc (p_suffixes P) (Inside (cm ++ t)) = Some dn -> dn <> [] ->
+  p_all_external P = false ->
   render_link P d (mklink_inc (with_frag (rel_spelling k r t) frag) false ch prefix (cm ++ r)) = C_doc dn frag.
 Proof. exact relative_docs_same_target. Qed.
 Print Assumptions C12_relative_docs_same_target.
@@ -271,6 +276,91 @@ Theorem C12_missing_once_doc : forall P from ex dn tid,
 Proof. exact missing_doc. Qed.
 Print Assumptions C12_missing_once_doc.
 
+(* ---------- the same theorems for the definitions REGENERATED from the Python source ---------- *)
+
+(* gen/c12_src.py translates _abs_path, _handle_relative_docs, render_link_project/_path/_unknown
+   (sphinx_.py), render_link (base.py), _resolve_ref_nested, _resolve_doc_nested, the candidate list of
+   resolve_myst_ref_any and resolve_myst_ref_doc (myst_refs.py) statement by statement into Gen/C12Src.v;
+   each is proved equal to the hand-written model (XRef/XRefSrcProofs.v) *)
+Theorem C12_src_refines_model :
+  (forall P d p, abs_path_src P d p = abs_path P d p)
+  /\ (forall P d l dest, handle_relative_docs_src P d l dest = handle_relative_docs P d l dest)
+  /\ (forall P d l, render_link_project_src P d l = render_link_project P d l)
+  /\ (forall P d l, render_link_path_src P d l = render_link_path P d l)
+  /\ (forall P d l, render_link_unknown_src P d l = render_link_unknown P d l)
+  /\ (forall P d l, render_link_src P d l = render_link P d l)
+  /\ (forall P from ex t, option_map (mkcand r_ref) (resolve_ref_nested_src P from ex t) = resolve_ref_nested P from ex t)
+  /\ (forall P from ex t, option_map (mkcand r_doc) (resolve_doc_nested_src P from ex t) = resolve_doc_nested P from ex t)
+  /\ (forall std other P from ex t, any_candidates_src std other P from ex t = any_candidates std other P from ex t)
+  /\ (forall P from ex dn tid, resolve_myst_ref_doc_src P from ex dn tid = resolve_myst_ref_doc P from ex dn tid).
+Proof.
+  exact (conj abs_path_src_eq (conj handle_relative_docs_src_eq (conj render_link_project_src_eq
+        (conj render_link_path_src_eq (conj render_link_unknown_src_eq (conj render_link_src_eq
+        (conj resolve_ref_nested_src_eq (conj resolve_doc_nested_src_eq (conj any_candidates_src_eq
+        resolve_myst_ref_doc_src_eq))))))))).
+Qed.
+Print Assumptions C12_src_refines_model.
+
+Theorem C12_path_spellings_src : forall (P : project) (d : docrec) (tp : list str) (sp : str),
+  segs_ok (p_srcdir P) -> segs_ok (d_dir d) -> Forall name_ok tp -> spells (d_dir d) tp sp ->
+  p_all_external P = false ->
+  relfn2path (p_srcdir P) (d_dir d) sp = Inside tp
+  /\ (forall dn frag ch,
+        is_file P (Inside tp) = true -> path2doc (p_suffixes P) (Inside tp) = Some dn -> dn <> [] ->
+        render_link_src P d (mklink (with_frag sp frag) false ch) = C_doc dn frag)
+  /\ (forall dn frag auto ch,
+        mem_str s_project (p_url_schemes P) = false -> path2doc (p_suffixes P) (Inside tp) = Some dn -> dn <> [] ->
+        render_link_src P d (mklink (s_project ++ c_colon :: with_frag sp frag) auto ch) = C_doc dn frag)
+  /\ (forall ch,
+        is_file P (Inside tp) = true -> path2doc (p_suffixes P) (Inside tp) = None ->
+        render_link_src P d (mklink sp false ch) = C_download sp sp
+        /\ collect_download P d sp = (T_dl (Inside tp), []))
+  /\ (forall auto ch,
+        mem_str s_path (p_url_schemes P) = false ->
+        (is_file P (Inside tp) = true ->
+           render_link_src P d (mklink (s_path ++ c_colon :: sp) auto ch) = C_download sp sp
+           /\ collect_download P d sp = (T_dl (Inside tp), []))
+        /\ (is_readable P (Inside tp) = false ->
+           render_link_src P d (mklink (s_path ++ c_colon :: sp) auto ch)
+           = C_nofile (abs_str P (Inside tp)) (s_path ++ c_colon :: sp))).
+Proof. exact path_spellings_all_src. Qed.
+Print Assumptions C12_path_spellings_src.
+
+Theorem C12_anchor_lookup_src : forall P from explicit dn td slug,
+  find_doc (p_docs P) dn = Some td -> slug <> [] ->
+  (forall e, find_slug (d_slugs td) slug = Some e -> sl_title e <> [] ->
+     resolve_myst_ref_doc_src P from explicit dn (Some slug)
+     = mk (make_refnode (p_dirhtml P) from dn (sl_id e)) (if explicit then X_children else X_str (sl_title e)) [])
+  /\ (find_slug (d_slugs td) slug = None ->
+     resolve_myst_ref_doc_src P from explicit dn (Some slug)
+     = mk (make_refnode (p_dirhtml P) from dn slug)
+          (if explicit then X_children else X_lit (dn ++ s_hash ++ slug)) (log_missing P slug)).
+Proof. exact anchor_lookup_src. Qed.
+Print Assumptions C12_anchor_lookup_src.
+
+Theorem C12_relative_docs_rewrite_src : forall P d l prefix cm r t k frag,
+  segs_ok (p_srcdir P) -> p_srcdir P <> [] -> Forall name_ok (d_dir d) ->
+  segs_ok cm -> segs_ok r -> segs_ok t -> t <> [] ->
+  (forall x, d_dir d <> (cm ++ t) ++ x) ->
+  (match frag with Some f => ~ In c_slash f | None => True end) ->
+  l_include l = Some (prefix, cm ++ r) ->
+  startswith (with_frag (rel_spelling k r t) frag) prefix = true ->
+  exists sp', spells (d_dir d) (cm ++ t) sp'
+    /\ handle_relative_docs_src P d l (with_frag (rel_spelling k r t) frag) = with_frag sp' frag.
+Proof. exact relative_docs_rewrite_src. Qed.
+Print Assumptions C12_relative_docs_rewrite_src.
+
+(* run_link_src = the whole link with the regenerated classifier, document resolver and candidate list *)
+Theorem C12_missing_once_src :
+  forall (std_objects other_domains : str -> list cand) (intersphinx : str -> option cand) P d l,
+  p_nitpick P = [] ->
+  (unresolved_src std_objects other_domains intersphinx P d l ->
+     count_missing (o_warns (run_link_src std_objects other_domains intersphinx P d l)) = 1%nat)
+  /\ (~ unresolved_src std_objects other_domains intersphinx P d l ->
+     count_missing (o_warns (run_link_src std_objects other_domains intersphinx P d l)) = 0%nat).
+Proof. exact missing_once_src. Qed.
+Print Assumptions C12_missing_once_src.
+
 (* ---------- tie to the source: regenerated tables (gen/c12_links.py) ---------- *)
 
 (* the order of the tests in DocutilsRenderer.render_link is the order modelled in [render_link] *)
@@ -305,13 +395,13 @@ Definition ex_project : project :=
      p_docs := [ex_index; ex_one; ex_two; ex_aindex];
      p_labels := [{| lb_name := [108; 97; 98; 45; 120]; lb_doc := [97; 47; 111; 110; 101]; lb_id := [108; 97; 98; 45; 120]; lb_sect := Some [83; 101; 99; 32; 65] |}];
      p_files := [[[105; 110; 100; 101; 120; 46; 109; 100]]; [[97]; [111; 110; 101; 46; 109; 100]]; [[97]; [98]; [116; 119; 111; 46; 109; 100]]; [[97]; [105; 110; 100; 101; 120; 46; 109; 100]]; [[97]; [98]; [100; 97; 116; 97; 46; 116; 120; 116]]; [[115; 110; 105; 112]; [112; 97; 114; 116; 46; 105; 110; 99]]];
-     p_nitpick := []; p_url_schemes := [[104; 116; 116; 112]; [104; 116; 116; 112; 115]; [109; 97; 105; 108; 116; 111]; [102; 116; 112]]; p_dirhtml := false |}.
+     p_nitpick := []; p_url_schemes := [[104; 116; 116; 112]; [104; 116; 116; 112; 115]; [109; 97; 105; 108; 116; 111]; [102; 116; 112]]; p_dirhtml := false; p_all_external := false |}.
 Definition ex_project_dirhtml : project :=
   {| p_srcdir := [[115; 114; 118]; [115; 114; 99]]; p_suffixes := [[46; 114; 115; 116]; [46; 109; 100]];
      p_docs := [ex_index; ex_one; ex_two; ex_aindex];
      p_labels := [{| lb_name := [108; 97; 98; 45; 120]; lb_doc := [97; 47; 111; 110; 101]; lb_id := [108; 97; 98; 45; 120]; lb_sect := Some [83; 101; 99; 32; 65] |}];
      p_files := [[[105; 110; 100; 101; 120; 46; 109; 100]]; [[97]; [111; 110; 101; 46; 109; 100]]; [[97]; [98]; [116; 119; 111; 46; 109; 100]]; [[97]; [105; 110; 100; 101; 120; 46; 109; 100]]; [[97]; [98]; [100; 97; 116; 97; 46; 116; 120; 116]]; [[115; 110; 105; 112]; [112; 97; 114; 116; 46; 105; 110; 99]]];
-     p_nitpick := []; p_url_schemes := [[104; 116; 116; 112]; [104; 116; 116; 112; 115]; [109; 97; 105; 108; 116; 111]; [102; 116; 112]]; p_dirhtml := true |}.
+     p_nitpick := []; p_url_schemes := [[104; 116; 116; 112]; [104; 116; 116; 112; 115]; [109; 97; 105; 108; 116; 111]; [102; 116; 112]]; p_dirhtml := true; p_all_external := false |}.
 
 (* a/b/two.md: [](../one.md#sec-a-1)  ->  ../one.html#id1 , text "Sec A", no warning *)
 Example C12_example_anchor :
